@@ -53,13 +53,6 @@ type histResult struct {
 	Started  bool            `json:"started,omitempty"` // marker line written before the history runs
 }
 
-func roundTrip(v map[string]any) map[string]any {
-	b, _ := json.Marshal(v)
-	var r map[string]any
-	json.Unmarshal(b, &r)
-	return r
-}
-
 // runHistory runs one history against the real router inside a synctest bubble.
 func runHistory(t *testing.T, prop string, seed int64, idx int, n int, replay *Scenario) (res histResult) {
 	res.MetaReq = map[string]bool{}
@@ -420,7 +413,8 @@ func TestFamily(t *testing.T) {
 		wg.Wait()
 	}
 	// exhaustive small-scope enumerations for the RPC properties (shallow in the quick tier)
-	rpcProp := *flagProperty == "C02" || *flagProperty == "C13" || *flagProperty == "C05" || *flagProperty == "C03"
+	rpcProp := *flagProperty == "C02" || *flagProperty == "C13" || *flagProperty == "C05" || *flagProperty == "C03" || *flagProperty == "C04" ||
+		*flagProperty == "C06" || *flagProperty == "C07"
 	if *flagReplay == "" && (*flagEnum > 0 || rpcProp) {
 		depth := *flagEnum
 		if depth == 0 {
@@ -430,10 +424,10 @@ func TestFamily(t *testing.T) {
 			}
 		}
 		var scs []Scenario
-		if *flagProperty != "C03" || *flagEnum > 0 {
-			scs = append(scs, enumScenarios(depth)...)
+		if (*flagProperty != "C03" && *flagProperty != "C04") || *flagEnum > 0 {
+			scs = append(scs, enumScenariosFor(*flagProperty, depth)...)
 		}
-		if *flagProperty == "C03" || *flagProperty == "C05" {
+		if *flagProperty == "C03" || *flagProperty == "C05" || *flagProperty == "C04" {
 			scs = append(scs, enumShared(depth+1)...)
 		}
 		sum.Notes = append(sum.Notes, fmt.Sprintf("exhaustive enumeration: %d histories (all follow-up sequences of length <= %d after one CALL over 13 events x2 callee feature sets; for C03/C05 all sequences of length <= %d over call/unregister/leave/re-register on a shared registration x3 policies)", len(scs), depth, depth+1))
